@@ -2,7 +2,7 @@
 ctx.models_used when it fires, and is exercised by the per-run differential validation against the native build."""
 import re
 import z3
-from .sym import (IV, BV, Agg, En, Ref, Opaque, StrLit, ArrIter, Closure, UNIT, T, F, mk_int, mk_bool, bv_of, zand, zor, znot,
+from .sym import (IV, BV, Agg, En, Ref, Opaque, StrLit, StrSel, _str_alts, ArrIter, Closure, UNIT, T, F, mk_int, mk_bool, bv_of, zand, zor, znot,
                   ty_range, wrap, merge, MergeFail, Inconclusive, INT_TYPES)
 
 INT = r'(?:[iu](?:8|16|32|64|128|size))'
@@ -225,6 +225,14 @@ def _std_model(ex, c, args, guard, site):
     if m: return ex.cast(args[0], m.group(1)), T
     m = re.match(r'^<(.+) as (From|Into)<(.+)>>::(from|into)$', cs)
     if m and m.group(1) == m.group(3): return args[0], T
+    m = re.match(r'^<&*str as PartialEq(?:<&*str>)?>::(eq|ne)$', cs)
+    if m:
+        a, b = ex.deref(args[0]), ex.deref(args[1])
+        if isinstance(a, StrLit) and isinstance(b, StrLit):
+            return mk_bool((a.b == b.b) == (m.group(1) == 'eq')), T
+        if isinstance(a, (StrLit, StrSel)) and isinstance(b, (StrLit, StrSel)):
+            e = zor(*[zand(c1, c2) for c1, b1 in _str_alts(a) for c2, b2 in _str_alts(b) if b1 == b2])
+            return bv_of(e if m.group(1) == 'eq' else znot(e)), T
     # structural equality of std value types built from integers (Ordering, Option<..>, tuples)
     m = re.match(r'^<&*((?:std::cmp::)?Ordering|Option<.*>|\(.*\)) as PartialEq>::(eq|ne)$', cs)
     if m:
@@ -461,10 +469,11 @@ def _std_model(ex, c, args, guard, site):
 class Abstraction:
     """Replace calls of a crate function by uninterpreted-function applications constrained by a contract predicate
     (a Rust fn in props/ executed from its own MIR). Only legal when the contract is an obligation discharged in the same run."""
-    def __init__(self, fn_last, contract_last, results, flatten=None, build=None, only_if=None):
+    def __init__(self, fn_last, contract_last, results, flatten=None, build=None, only_if=None, always=False):
         self.fn_last = fn_last; self.contract_last = contract_last
-        self.results = results          # list of (name, type, lo, hi)
+        self.results = results          # list of (name, type, lo, hi) or (name, 'bool')
         self.flatten = flatten; self.build = build; self.only_if = only_if
+        self.always = always            # also inside contract predicates (pure oracle functions taken as uninterpreted)
         self.uses = 0
     def applies(self, name):
         return self.only_if(name) if self.only_if else True
@@ -472,10 +481,16 @@ class Abstraction:
         ctx = ex.ctx
         flat = self.flatten(ex, args) if self.flatten else [ex.deref(a) for a in args]
         for a in flat:
+            if isinstance(a, BV):
+                raise Inconclusive('abstraction %s: bool argument' % self.fn_last)
             if not isinstance(a, IV): raise Inconclusive('abstraction %s: non-integer argument %r' % (self.fn_last, a))
         I = z3.IntSort()
         res = []
-        for (nm, ty, lo, hi) in self.results:
+        for spec in self.results:
+            if spec[1] == 'bool':
+                uf = z3.Function('A_%s_%s' % (self.fn_last, spec[0]), *([I] * len(flat) + [z3.BoolSort()]))
+                res.append(BV(uf(*[a.t for a in flat]))); continue
+            (nm, ty, lo, hi) = spec
             uf = z3.Function('A_%s_%s' % (self.fn_last, nm), *([I] * (len(flat) + 1)))
             t = uf(*[a.t for a in flat]) if flat else uf()
             ctx.side += [t >= lo, t <= hi]
